@@ -230,7 +230,7 @@ class Live(object):
                     'session': csn, 'conn': ci, 'srv': ev['srv'], 'ver': v,
                     'params': sview[:5],
                     'origin_ccert': pred['origin_ccert'] if pred else sview[4],
-                    'inval_c': False, 'inval_s': False, 'altered': False, 'revived': False,
+                    'inval_c': False, 'inval_s': False, 'inval_s_ticket': False, 'altered': False, 'revived': False,
                     'key': cfg['keys'][0] if (nt[0] or nt[1]) and cfg['keys'] else None,
                     'issued_q': (self.q // 4) * 4, 'stored_q': self.q if (cfg['usecache'] and v < 4) else None,
                     'sid': bytes(csn.sessionID)})
@@ -247,6 +247,7 @@ class Live(object):
         rec['outcome'] = (c, s)
         self.obs.append(obs)
         self.oracle(ev, rec, cfg, o)
+        conn['mech'] = rec.get('offered') if (obs[0] == 0 and rec.get('cli_resumed')) else 'full'
         return obs
 
     def close(self, ev):
@@ -270,14 +271,15 @@ class Live(object):
             if classify(r1)[0] != 'LocalAlert' or classify(r2)[0] != 'RemoteAlert':
                 self.flag('tie:fatal-close', 'could not produce a fatal alert seen by both ends', r1=repr(r1), r2=repr(r2))
             if o:
-                o['inval_c'] = o['inval_s'] = True
+                o['inval_c'] = True
+                o['inval_s_ticket' if conn.get('mech') in ('ticket', 'psk') else 'inval_s'] = True
         elif kind == 2:
             p.csock.close()
             r1 = run_gen(p.server.readAsync(max=16, min=1))
             if classify(r1)[0] != 'AbruptClose':
                 self.flag('tie:abrupt-close', 'server did not see an abrupt close', r1=repr(r1))
             if o:
-                o['inval_s'] = True
+                o['inval_s_ticket' if conn.get('mech') in ('ticket', 'psk') else 'inval_s'] = True
         elif kind == 3:
             p.ssock.close()
             r1 = run_gen(p.client.readAsync(max=16, min=1))
@@ -370,6 +372,7 @@ class Live(object):
                 offered = 'ticket'
             elif v < 4 and hello['sid'] and hello['sid'] == o['sid']:
                 offered = 'sid'
+        rec['offered'] = offered
         path = '%s-%s' % (offered, vc)
         cls = [vc, offered, 'resumed' if resumed else ('done' if done else 'abort%r' % (obs[:2],))]
         # ground truth about the offered session, as the property lists it
@@ -378,7 +381,14 @@ class Live(object):
             same_server = (o['srv'] == ev['srv'])
             # what the server can know: a failure it saw itself.  A failure only the client saw obliges the
             # (honest) client not to offer the session any more; that is checked separately below.
-            conds['not-invalidated'] = not o['inval_s']
+            # inval_s: a connection bound to the server's cached Session object died at the server;
+            # inval_s_ticket: a connection resumed from a ticket of this session did (the server end
+            # then holds a fresh Session object, the failure cannot reach the cache entry)
+            if offered == 'sid':
+                conds['not-invalidated'] = not o['inval_s']
+                conds['no-failed-ticket-connection'] = not o['inval_s_ticket']
+            else:
+                conds['not-invalidated'] = not (o['inval_s'] or o['inval_s_ticket'])
             if o['inval_c'] and not o['revived']:
                 self.flag('client-offers-invalidated-session:' + path,
                           'the client offered session object %d although a fatal error invalidated it' % ev['offer'], conn=rec['ci'])
@@ -411,6 +421,8 @@ class Live(object):
                     key = 'resumed-but:%s:%s' % (k, path)
                     if k == 'not-invalidated' and offered in ('ticket', 'psk'):
                         key = 'stateless-ticket-outlives-invalidation:' + vc
+                    if k == 'no-failed-ticket-connection':
+                        key = 'ticket-connection-failure-not-propagated-to-cache:' + vc
                     self.flag(key, 'connection %d resumed (%s) from a session that fails "%s"' % (rec['ci'], path, k),
                               conn=rec['ci'], conds=conds)
             for k, okk in cons.items():
@@ -438,7 +450,8 @@ class Live(object):
         if obs[0] == 3:
             return      # client API refused before sending anything: nothing on the wire
         if not done and ev['fsuite'] != 0:
-            genuine = bool(conds) and all(x for k, x in conds.items() if k != 'not-invalidated')
+            genuine = bool(conds) and all(x for k, x in conds.items()
+                                          if k not in ('not-invalidated', 'no-failed-ticket-connection'))
             inconsistent = genuine and not all(rec.get('cons', {}).values())
             # the server may refuse a genuine session offered with an inconsistent hello by an alert;
             # nothing entitles the client to abort once the server has started a full handshake
